@@ -2,6 +2,7 @@ import LoguruModel.Rotation.Ctime
 import LoguruModel.Rotation.Stream
 import LoguruModel.Rotation.CatchUp
 import LoguruModel.Rotation.FloatParsers
+import LoguruModel.Rotation.Platform
 import LoguruModel.Driver
 /-! line-protocol driver of the Rotation area (C07, C19); see harness/c07.py for the grammar -/
 open Rotation Py
@@ -64,6 +65,19 @@ def step (line : String) : String :=
       | .error e => "err " ++ toString e
       | .ok ls => "ok " ++ bits (runCalls ls (initStates ls) cs)
     | _, _ => "bad-op"
+  | ["plat", a, b, c] =>
+    -- which creation-time functions load_ctime_functions installs for (os.name == "nt", st_birthtime, xattr functions)
+    (match platformOf (a == "1") (b == "1") (c == "1") with
+     | .windows => "windows" | .macos => "macos" | .linuxXattr => "linux" | .noXattr => "fallback")
+  | "sinku" :: spec :: ct :: sz :: msgs =>
+    -- a sink history on a file system that cannot persist the creation tag
+    match parseSpec spec, ct.toInt?, sz.toInt?,
+      msgs.mapM (fun t => if t == "R" then some SinkOp.restart else (parseMsg t).map SinkOp.msg) with
+    | some items, some ct, some sz, some ops =>
+      match makeRotation items with
+      | .error e => "err " ++ toString e
+      | .ok ls => "ok " ++ showFiles ((Sink.runOpsOn false ls (Sink.init ls ct sz) ops).files)
+    | _, _, _, _ => "bad-op"
   | "sink" :: spec :: ct :: sz :: msgs =>
     match parseSpec spec, ct.toInt?, sz.toInt?,
       msgs.mapM (fun t => if t == "R" then some SinkOp.restart
@@ -139,6 +153,15 @@ def step (line : String) : String :=
         | _, some q => s!"ok {q.1}/{q.2} {q.1 / (q.2 : Int)}"
         | .inf neg, _ => if neg then "-inf" else "inf"
         | _, _ => "nan"
+    | none => "bad-op"
+  | ["durf", tok] =>
+    -- parse_duration in binary64 + timedelta(seconds=float), as Python computes it
+    match decTok tok with
+    | some s =>
+      match parseDurationF s with
+      | .error e => "err " ++ toString e
+      | .ok none => "none"
+      | .ok (some us) => s!"ok {us}"
     | none => "bad-op"
   | ["dur", tok] =>
     match decTok tok with
